@@ -58,7 +58,16 @@ pub(crate) fn gen_items(g: &mut Gen, forms: &std::collections::HashMap<String, V
                 let use_mem = has_mem && (!has_reg || g.rng.gen_bool(0.4));
                 let shape = [MemShape::Base, MemShape::BaseDisp8, MemShape::BaseDisp32, MemShape::BaseIndex, MemShape::BaseIndexDisp8, MemShape::Abs32, MemShape::RipRel]
                     [g.rng.gen_range(0..7)];
-                if let Some(c) = g.make(code, "prog", use_mem, shape, Place::Rw, false, Register::None, 0) {
+                // mostly mapped read-write operands; now and then one that faults in the middle of the program (read-only, running over
+                // the end of its area, unmapped): an error-ended run must look the same through step() and execute()
+                let place = match g.rng.gen_range(0..40) {
+                    0 => Place::Ro,
+                    1 => Place::Straddle,
+                    2 => Place::Hole,
+                    3 => Place::LastFit,
+                    _ => Place::Rw,
+                };
+                if let Some(c) = g.make(code, "prog", use_mem, shape, place, false, Register::None, 0) {
                     if use_mem && c.shape != "reg" {
                         // address set-up: load the registers the operand uses with the values the generator planned
                         let base = c.instr.memory_base();
